@@ -13,6 +13,8 @@ use std::time::Duration;
 
 pub const STALL: Duration = Duration::from_secs(8);
 pub const OUTER: Duration = Duration::from_secs(120);
+/// CPU time (1/100 s) the engine's main thread may use between isready and readyok
+pub const MAIN_THREAD_BUSY_TICKS: u64 = 1_500;
 
 #[derive(Clone, Debug, PartialEq)]
 pub enum Cmd {
@@ -228,6 +230,8 @@ impl<'a> Session<'a> {
     pub fn sync(&mut self, all_must_be_answered: bool) -> bool {
         self.eng.send("isready");
         let mut lines: Vec<String> = vec![];
+        // readyok is owed whatever the engine is doing; the thread that reads the commands has nothing to compute
+        self.eng.busy_main_ticks = Some(MAIN_THREAD_BUSY_TICKS);
         let w = self.eng.wait_for(
             |src, l| {
                 if *src == Src::Out {
@@ -238,6 +242,7 @@ impl<'a> Session<'a> {
             STALL,
             OUTER,
         );
+        self.eng.busy_main_ticks = None;
         for l in lines.iter() {
             self.on_out(l);
             if self.info_after_stop > 1000 {
@@ -247,6 +252,10 @@ impl<'a> Session<'a> {
         }
         match w {
             Wait::Got => {}
+            Wait::Busy => {
+                self.fail("isready-unanswered", format!("no readyok although the process' main thread has used more than {} clock ticks of CPU since isready was sent (a loop in the command reader)", MAIN_THREAD_BUSY_TICKS));
+                return false;
+            }
             Wait::Hung => {
                 let what = if self.stop_pending { "after a command that must end the running search (the search does not stop)" } else { "" };
                 self.fail("isready-unanswered", format!("no readyok: the process neither answers nor uses CPU {}", what));
@@ -304,7 +313,7 @@ impl<'a> Session<'a> {
                 self.fail("process-died", "stdout closed while waiting for bestmove".into());
                 false
             }
-            Wait::Slow => {
+            Wait::Slow | Wait::Busy => {
                 self.out.inconclusive = Some("bestmove did not arrive within the outer watchdog while the process was still busy".into());
                 false
             }
